@@ -1854,7 +1854,7 @@ def strip(case):
 def main(tier):
     rep = common.Reporter(PID, tier)
     seed = common.seed()
-    ps = common.proof_stage(rep, PID, gen=["lang", "c03"], extra_targets=["model/FortranCheck.vo", "model/FortranPrinter.vo"])
+    ps = common.proof_stage(rep, PID, gen=["lang", "c03", "c06"], extra_targets=["model/FortranCheck.vo", "model/FortranPrinter.vo"])
 
     cases = corpus()
     n_corpus = len(cases)
@@ -1909,7 +1909,8 @@ def main(tier):
     pw = check_power_printer(rep, tier)
     # witness tie of proofs/GuardMerge.v (C03_merged_guard_refuted): after the first call of run on
     # corpus/C03/raw_guard_rewritten.json the interpreter holds what wit_interpreter computes, (3, 0); the compiled
-    # stepper holds what wit_generated computes, (3, 1), for as long as the finding is open, and (3, 0) once repaired
+    # stepper holds (3, 0) as well on the repaired tree (fix 5e02bf5) and what wit_generated computes, (3, 1), on the
+    # unrepaired one (where the oracle reports the case as a violation anyway)
     gm = {"checked": False}
     for case, res in zip(cases, results):
         if case.get("file", "").endswith("raw_guard_rewritten.json"):
@@ -1918,7 +1919,7 @@ def main(tier):
             iv = (i1[0].get("<p>x"), i1[0].get("<p>y"))
             fv = (f1[0].get("<p>x"), f1[0].get("<p>y"))
             gm = {"checked": True, "interpreter": iv, "compiled": fv,
-                  "ok": iv == (3, 0) and fv in ((3, 1), (3, 0))}
+                  "ok": iv == (3, 0) and fv in ((3, 1), (3, 0)), "repaired": fv == (3, 0)}
             if not gm["ok"]:
                 errors = list(errors) + ["GuardMerge witness: interpreter %r, compiled %r" % (iv, fv)]
     rep.coverage["guard_merge_witness"] = gm
